@@ -324,6 +324,135 @@ def check_address(case):
     return Outcome(True, (t, net))
 
 
+# ---------------------------------------------------------------- BIP21 URIs (an address, an amount and free text in one string)
+UNRESERVED = set("ABCDEFGHIJKLMNOPQRSTUVWXYZabcdefghijklmnopqrstuvwxyz0123456789-._~")
+RESERVED_KEYS = {"amount", "label", "message"}
+URI_TEXT = st.one_of(st.text(max_size=20), st.text(alphabet="&=?#%+ /:@;,'\"<>[]{}|\\^`", max_size=8), st.sampled_from(["", " ", "%", "%41", "a=b&c", "è", "日本語", "a+b", "100%", "\x00", "\U0001f600"]))
+
+
+def pct_encode(text: str) -> str:
+    """RFC 3986: everything but the unreserved characters is %XX of its UTF-8 octets."""
+    return "".join(ch if ch in UNRESERVED else "".join(f"%{b:02X}" for b in ch.encode("utf-8")) for ch in text)
+
+
+def pct_decode(text: str) -> str:
+    out = bytearray()
+    i = 0
+    while i < len(text):
+        if text[i] == "%":
+            out.append(int(text[i + 1 : i + 3], 16))
+            i += 3
+        else:
+            out += text[i].encode("utf-8")
+            i += 1
+    return out.decode("utf-8")
+
+
+@st.composite
+def bip21_case(draw):
+    keys = st.text(min_size=1, max_size=8).filter(lambda k: k not in RESERVED_KEYS and not k.lower().startswith("req-"))
+    return {
+        "addr": draw(address_case()),
+        "sats": draw(st.one_of(st.none(), st.sampled_from([0, 1, 10**8, 21 * 10**14, 12345678]), st.integers(0, 21 * 10**14))),
+        "label": draw(st.one_of(st.none(), URI_TEXT)),
+        "message": draw(st.one_of(st.none(), URI_TEXT)),
+        "others": draw(st.lists(st.tuples(keys, URI_TEXT).map(list), max_size=3, unique_by=lambda kv: kv[0])),
+        "scheme": draw(st.sampled_from(["bitcoin", "bitcoin", "BITCOIN", "Bitcoin"])),
+        "bad": draw(st.sampled_from(["none", "none", "amount-exp", "amount-sign", "amount-comma", "amount-over", "amount-fine", "req", "scheme", "no-address", "bad-escape", "bad-utf8", "net-char"])),
+    }
+
+
+def check_bip21(case):
+    from decimal import Decimal
+
+    from btclib.bip21 import Bip21
+
+    a = dict(case["addr"])
+    a["type"] = a["type"] if a["type"] != "witness_unknown" else "p2tr"
+    a["v1len"] = 32
+    t, net, pl = a["type"], a["net"], bytes.fromhex(a["payload"])
+    addr = {
+        "p2pkh": lambda: b58ref.check_encode(NETWORKS[net].p2pkh + pl[:20]),
+        "p2sh": lambda: b58ref.check_encode(NETWORKS[net].p2sh + pl[:20]),
+        "p2wpkh": lambda: sref.encode(NETWORKS[net].hrp, 0, list(pl[:20])),
+        "p2wsh": lambda: sref.encode(NETWORKS[net].hrp, 0, list(pl[:32])),
+        "p2tr": lambda: sref.encode(NETWORKS[net].hrp, 1, list(pl[:32])),
+    }[t]()
+    sats = case["sats"]
+    amount = None if sats is None else Decimal(sats) / Decimal(10**8)
+    others = {k: v for k, v in case["others"]}
+    lone = any(0xD800 <= ord(ch) <= 0xDFFF for text in [case["label"] or "", case["message"] or "", *others, *others.values()] for ch in text)
+    if lone:
+        return Outcome(False, ("lone-surrogate-skipped",))  # not text that UTF-8 can carry: C19's business, not a round trip
+    obj = Bip21(addr, amount, case["label"], case["message"], others)
+    uri = obj.serialize()
+    # 1. the library reads back what it wrote
+    back = Bip21.parse(uri)
+    if (back.address, back.amount, back.label, back.message, dict(back.others)) != (addr, amount, case["label"], case["message"], others):
+        raise Violation("bip21:round-trip", f"{uri!r} -> {back}")
+    # 2. an independent reader of what the library wrote
+    head, _, query = uri.partition("?")
+    if head != "bitcoin:" + addr:
+        raise Violation("bip21:scheme-or-address-written", uri[:80])
+    fields = {}
+    for element in query.split("&") if query else []:
+        k, _, v = element.partition("=")
+        if any(ch not in UNRESERVED and ch not in "%!$'()*+,;:@/" for ch in k + v):
+            raise Violation("bip21:unescaped-character-written", f"{element!r} in {uri!r}")
+        fields[pct_decode(k)] = pct_decode(v)
+    want = dict(others)
+    if amount is not None:
+        if Decimal(fields.get("amount", "x") if fields.get("amount", "x").replace(".", "").isdigit() else "NaN") != amount:
+            raise Violation("bip21:amount-written", f"{fields.get('amount')!r} for {amount}")
+        fields.pop("amount")
+    for name in ("label", "message"):
+        if case[name] is not None:
+            want[name] = case[name]
+    if fields != want:
+        raise Violation("bip21:fields-written", f"{fields} vs {want}")
+    # 3. the library reading what an independent writer wrote (everything escaped, any scheme case, parameters in another order)
+    parts = [f"{pct_encode(k)}={pct_encode(v)}" for k, v in reversed(list(others.items()))]
+    if case["message"] is not None:
+        parts.append("message=" + pct_encode(case["message"]))
+    if sats is not None:
+        whole, frac = divmod(sats, 10**8)
+        parts.append(f"amount={whole}.{frac:08d}" if frac else f"amount={whole}")
+    if case["label"] is not None:
+        parts.append("label=" + pct_encode(case["label"]))
+    foreign = f"{case['scheme']}:{addr}" + ("?" + "&".join(parts) if parts else "")
+    bad = case["bad"]
+    if bad == "none":
+        try:
+            got = Bip21.parse(foreign)
+        except REFUSAL as e:
+            raise Violation("bip21:valid-uri-refused", f"{foreign!r}: {e}")
+        if (got.address, got.amount, got.label, got.message, dict(got.others)) != (addr, amount, case["label"], case["message"], others):
+            raise Violation("bip21:foreign-uri-read", f"{foreign!r} -> {got}")
+        if got.network_type != network_type_from_network(net):
+            raise Violation("bip21:network-type", f"{addr} written for {net}, read {got.network_type}")
+        return Outcome(bool(parts), (t, net, f"params={len(parts)}", f"scheme={case['scheme']}"))
+    sep = "&" if parts else "?"
+    broken = {
+        "amount-exp": f"bitcoin:{addr}?amount=1e2",
+        "amount-sign": f"bitcoin:{addr}?amount=-1",
+        "amount-comma": f"bitcoin:{addr}?amount=1,5",
+        "amount-over": f"bitcoin:{addr}?amount=21000000.00000001",
+        "amount-fine": f"bitcoin:{addr}?amount=0.000000001",
+        "req": foreign + sep + "req-somethingnew=1",
+        "scheme": f"bitcoincash:{addr}",
+        "no-address": "bitcoin:?amount=1",
+        "bad-escape": f"bitcoin:{addr}?label=%zz",
+        "bad-utf8": f"bitcoin:{addr}?label=%ff%fe",
+        "net-char": "bitcoin:" + (addr[:-1] + ("q" if addr[-1] != "q" else "p")),
+    }[bad]
+    try:
+        got = Bip21.parse(broken)
+    except REFUSAL:
+        return Outcome(True, (f"refused={bad}",))
+    raise Violation(f"bip21:accepted:{bad}", f"{broken!r} -> {got}")
+
+
+
 # ---------------------------------------------------------------- WIF and extended keys
 @st.composite
 def keys_case(draw):
@@ -411,6 +540,7 @@ SUBCHECKS = [
     SubCheck("segwit_single_subst", lambda c: None, "every single-character substitution of valid segwit addresses; distinct by construction", units=segwit_units, run_unit=segwit_run_unit, exhaustive=True),
     SubCheck("bech32_lowlevel", check_bech32, "bech32.encode equals the reference and decodes back (lower and upper case)", bech32_case, quick=1500, thorough=15000),
     SubCheck("address_inverse", check_address, "address(spk) equals the reference string and from_address gives spk back, network of the same type and prefix", address_case, quick=8000, thorough=60000),
+    SubCheck("bip21", check_bip21, "bitcoin: URIs over every address type x network, amounts 0..21e14 sat, unicode / reserved-character labels, messages and extra parameters: parse(serialize(x)) == x, an independent RFC 3986 reader recovers every field from what the library wrote, the library reads what an independent writer wrote (any scheme case, any parameter order), network type read off the address; exponent / signed / comma / over-range / sub-satoshi amounts, req- parameters, other schemes, malformed escapes and a corrupted address are refused; non-trivial: at least one parameter", bip21_case, quick=4000, thorough=40000),
     SubCheck("keys", check_keys, "WIF and xprv/xpub (all BIP32/SLIP132 versions): encode = reference, decode inverse, mutated strings accepted iff the reference accepts", keys_case, quick=3000, thorough=30000),
     SubCheck("ripemd160", check_ripemd, "pure-Python RIPEMD160 == OpenSSL's on lengths around block boundaries", ripemd_case, quick=1500, thorough=15000),
 ]
